@@ -10,7 +10,7 @@ EnvChoices == { <<TRUE, "u2", TRUE, TRUE, "g", TRUE, "u1", 3, "u1">>, <<FALSE, "
                 <<TRUE, "u2", FALSE, FALSE, "g", FALSE, "u2", 4, "u1">>, <<FALSE, "u3", TRUE, TRUE, "no", TRUE, "u1", 1, "u2">>,
                 <<TRUE, "none", TRUE, FALSE, "no", TRUE, "u2", 5, "u2">>, <<FALSE, "u2", FALSE, TRUE, "g", FALSE, "u1", 3, "u1">> }
 Coords == {<<p, m>> : p \in EnvChoices, m \in 0..2}
-CasesOf(k) == {[pols |-> ps, params |-> k[1], loader |-> k[2], maxBudget |-> 9] : ps \in PolSets}
+CasesOf(k) == {[pols |-> ps, params |-> k[1], loader |-> k[2], maxBudget |-> 12] : ps \in PolSets}
 Init == coord \in Coords /\ c = <<>>
 Next == c = <<>> /\ c' \in CasesOf(coord) /\ UNCHANGED coord
 Dump == PrintT("CASE " \o ToJson(c'))
